@@ -7,6 +7,7 @@ with #guard on the published vectors).
 import PkgsrcVerif.Driver.Proto
 import PkgsrcVerif.Model.Digest
 import PkgsrcVerif.Spec.Hashes
+import PkgsrcVerif.Spec.DigestRef
 open Proto M
 
 namespace DriverDig
@@ -15,10 +16,7 @@ namespace DriverDig
 def refHasher (f : Bytes → Bytes) : Hasher :=
   { State := Bytes, init := [], update := fun s b => s ++ b, final := f }
 
-def reference (d : Digest) : Bytes → Bytes :=
-  match d with
-  | .blake2s => S.Hashes.blake2s | .md5 => S.Hashes.md5 | .rmd160 => S.Hashes.rmd160
-  | .sha1 => S.Hashes.sha1 | .sha256 => S.Hashes.sha256 | .sha512 => S.Hashes.sha512
+def reference := S.reference
 
 def bstr (x : Bytes) : String := String.ofList (x.map fun c => Char.ofNat c.toNat)
 
@@ -43,10 +41,7 @@ def hashPatchEvents (H : Hasher) (evs : List ReadEvent) : Option Bytes :=
   if evs.contains .error then none
   else some (hashPatch H (evs.flatMap fun | .data b => b | _ => []))
 
-/-- the statement's patch filter on the whole content: newline-terminated lines containing
-    `$NetBSD` removed, a final unterminated line counting as terminated -/
-def filterPatch (c : Bytes) : Bytes :=
-  ((splitLines c).filter fun l => !hasNetBSD l).flatMap fun l => l ++ [10]
+def filterPatch := S.filterPatch
 
 def model (op : String) (args : List Bytes) : Option String := do
   match op with
